@@ -527,3 +527,7 @@ def run(ctx):
     # the framing mode is picked by a flag test: the flag must sit on the protocol's bit
     from .c04 import flag_values
     flag_values(ctx, 'C07.3-flag-values')
+
+    from ..families import check_error_swallow as _swallow
+    ctx.rule('C07.2-errors-surface', 'in the functions of this property that can themselves report failure, the Result of one of the repository\'s own fallible functions is never turned into "nothing" or a default (ok(), unwrap_or*, map_or*): an error must surface as an error, not as a value the callee never produced; a rule about what must not be there (exercised on the fixture every run)', floor=0)
+    _swallow(ctx, P, 'C07.2-errors-surface', ('edp_client::connection::Connection::send', 'edp_client::connection::Connection::link', 'edp_client::connection::Connection::unlink', 'edp_client::connection::Connection::monitor', 'edp_client::connection::Connection::demonitor', 'erltf::encoder::'))
